@@ -25,7 +25,8 @@ FsOf(p) ==
       a2 == IF p.d2 = "none" THEN a1 ELSE (("$R/d2/a.conf" :> p.d2) @@ a1)
   IN a2
 
-Names == {"a.conf", "$R/d2/a.conf", "$R/d1/a.conf", "sub/a.conf", "none.conf", "sub", "$R/top.conf", "d1/a.conf"}
+(* the working directory is $R: "top.conf" and "d1/a.conf" exist relative to it, but in no search directory *)
+Names == {"a.conf", "$R/d2/a.conf", "$R/d1/a.conf", "sub/a.conf", "none.conf", "sub", "$R/top.conf", "d1/a.conf", "top.conf"}
 TildeNames == {"~", "~/x", "~root", "~root/x/y", "~nobody/x", "~nouser/x", "~nouser", "", "plain", "/abs/~x", "~/", "~root/"}
 
 Init == /\ sp = <<>> /\ list = <<>>
@@ -57,7 +58,7 @@ P_C17_Tilde ==
 
 Emit == PrintT(<<"BEH", ToJson([sp |-> sp, place |-> place,
             resolve |-> [n \in Names |-> IF sp = <<>> THEN "<EMPTY>" ELSE ResolveRef(sp, Fs, n)],
-            open |-> [n \in Names |-> OpenTarget(sp, Fs, n, PW, EuidHome)]])>>)
+            open |-> [n \in Names |-> OpenTarget(sp, Fs, n, PW, EuidHome, "$R")]])>>)
 
 ASSUME PrintT(<<"TILDE", ToJson([n \in TildeNames |-> TildeRef(n, PW, EuidHome)])>>)
 ASSUME PrintT(<<"PW", ToJson(PW)>>)
